@@ -1980,8 +1980,18 @@ impl TypeSpace {
                 .cloned()
                 .collect::<Vec<_>>();
 
-            let (type_entry, metadata) =
-                self.convert_unknown_enum(type_name, original_schema, metadata, &enum_values)?;
+            // If a name is required, the newtype wrapping the Option takes it
+            // so the inner type needs its own.
+            let inner_type_name = match &type_name {
+                Name::Required(name) => Name::Suggested(format!("{}Inner", name)),
+                _ => type_name,
+            };
+            let (type_entry, metadata) = self.convert_unknown_enum(
+                inner_type_name,
+                original_schema,
+                metadata,
+                &enum_values,
+            )?;
             let type_entry = self.type_to_option(type_entry);
             Ok((type_entry, metadata))
         } else {
